@@ -751,7 +751,7 @@ type pathState struct {
 
 func c05MountPath(c *core.Ctx) {
 	const R = "C05.7"
-	c.Rule(R, "mount path: (a) path-sensitive abstract evaluation of ComputePath over {ends-with-slash, no-slash}: the default literal is /engine.io and every feasible path returns a slash-terminated pattern unless options.AddTrailingSlash() was explicitly false — including options == nil; (b) Attach registers exactly that pattern with s.ServeHTTP; (c) ServeMux cleans the request path (utils.CleanPath) before matching, tries the exact map first and then the trailing-slash prefixes, files patterns ending in '/' as prefixes, and falls back to DefaultHandler")
+	c.Rule(R, "mount path: (a) path-sensitive abstract evaluation of ComputePath over {ends-with-slash, no-slash}: the default literal is /engine.io and every feasible path returns a slash-terminated pattern unless options.AddTrailingSlash() was explicitly false — including options == nil — and a pattern WITHOUT trailing slash (the caller's path stripped of it) when it was explicitly false; (b) Attach registers exactly that pattern with s.ServeHTTP; (c) ServeMux cleans the request path (utils.CleanPath) before matching, tries the exact map first and then the trailing-slash prefixes, files patterns ending in '/' as prefixes, and falls back to DefaultHandler")
 	u := c.Fn(R, "engine.(*baseServer).ComputePath")
 	if u != nil {
 		info := u.Info()
@@ -890,9 +890,9 @@ func c05MountPath(c *core.Ctx) {
 			}
 		}
 		walk(g.C.Blocks[0], 0, pathState{slash: "unknown", bools: map[types.Object]string{}}, map[int32]int{})
-		bad := 0
+		bad, badFalse, nFalse := 0, 0, 0
 		defaultOK := false
-		var sample string
+		var sample, sampleFalse string
 		for _, r := range results {
 			explicitFalse := false
 			for _, f := range r.facts {
@@ -907,7 +907,16 @@ func c05MountPath(c *core.Ctx) {
 				bad++
 				sample = strings.Join(r.facts, "; ")
 			}
+			if explicitFalse {
+				nFalse++
+				if r.slash != "noslash" {
+					badFalse++
+					sampleFalse = strings.Join(r.facts, "; ")
+				}
+			}
 		}
+		c.Check(R, "engine.(*baseServer).ComputePath/no-trailing-slash-when-explicitly-off", u.Pos(), badFalse == 0 && nFalse >= 1,
+			keyf("%d feasible paths with AddTrailingSlash() explicitly false; %d of them can return a pattern that still ends in '/' (the caller's path is not stripped on that path: the mount becomes a prefix instead of an exact pattern), e.g. %s", nFalse, badFalse, sampleFalse))
 		c.Check(R, "engine.(*baseServer).ComputePath/trailing-slash-on-every-path", u.Pos(), bad == 0 && len(results) >= 3,
 			keyf("%d feasible paths enumerated; %d return a pattern without trailing slash although AddTrailingSlash() was not explicitly false (e.g. %s)", len(results), bad, sample))
 		c.Check(R, "engine.(*baseServer).ComputePath/default=/engine.io", u.Pos(), defaultOK, "the default mount literal is /engine.io")
